@@ -3,6 +3,7 @@ import vlib, mcdrive
 from checks.c06 import replay
 
 ASSUME = [
+    'delivery tier: the recipient sets computed by the state machine are what getmessages.go filters by; four histories on the real in-process node, every session reads its stream from the start and from every resume point (either session first, live and restarted node): every line served must be addressed to the reader in the stored batch',
     'bounds as C06 (<=3 clients, <=2 services links, alphabet of DESIGN.md 1.2, depth 2/3)',
     'services-link session ids (current or former) are ignored in recipient sets ("apart from services links")',
     'notification rules (JOIN/PART/KICK/TOPIC/MODE/NICK/QUIT) are upper bounds as the property words them; channel PRIVMSG/NOTICE is exact',
@@ -12,8 +13,27 @@ RULE = ('every output message of every transition: recipient set checked against
         'channel/user notifications), client prefix must state the pre-entry nick/user/id of a session and may differ from the actor only for services/operator actions; '
         'announcements and membership changes must agree')
 
+def prebuild():
+    import apidrive
+    mcdrive.build_mc()
+    apidrive.build()
+
 def run(tier):
-    mcdrive.run_mc('C12', tier, ['C12'], ASSUME, RULE)
+    import time, apidrive
+    t0 = time.time()
+    # delivery tier: what the real GET handler serves (from the start and resumed at every position, live node
+    # and restarted node, either reader first) must be addressed to the reader by the state machine
+    ra = vlib.run_workers(apidrive.build(), 'TestVerifC04Api', 8, env={'GOMAXPROCS': '2', 'VERIF_API_PROP': 'C12'})
+    herr = [r['harness_error'] for r in ra if r.get('harness_error')]
+    if herr:
+        print('HARNESS-ERROR: ' + herr[0]); raise SystemExit(3)
+    viols = []
+    for r in ra:
+        for v in r.get('violations') or []:
+            v['prop'] = 'C12api'   # not replayable on the state-machine engine
+            viols.append(v)
+    extra = {'delivery_tier': {'nodes': sum(r.get('sequences', 0) for r in ra), 'streams_read_from_a_resume_point': sum(r.get('ops', 0) for r in ra)}}
+    mcdrive.run_mc('C12', tier, ['C12'], ASSUME, RULE, pre_violations=viols, extra_cov=extra, t0=t0)
 
 MANIFEST = dict(engine='mc', level='model_checking',
   technique='explicit-state BFS over the real IRCServer; per-output recipient/identity oracle against the announcement-tied membership relation',
